@@ -28,13 +28,16 @@ Record shell := mkShell {
 }.
 
 (** [out] is the captured stdout (newest first); [quiet] says that stdout currently is the pipe
-    of a non-final pipeline stage (nothing reads it in this fragment, so the output is dropped).  The two ghost flags record that the run went
-    through one of the two places where brush lets a control flow escape that bash confines
-    (they do not influence the run; see Simulation.v):
-    [g_leak]: the last stage of a multi-stage pipeline (run in a cloned shell) ended with a
-              non-Normal control flow, which [Pipeline::execute] hands to the parent;
-    [g_bang]: a [!] pipeline ended with Return/Exit and had its exit code inverted. *)
-Record world := mkWorld { sh : shell; out : list event; quiet : bool; g_leak : bool; g_bang : bool }.
+    of a non-final pipeline stage (nothing reads it in this fragment, so the output is dropped).
+    [ghost] records that the run went through one of the places where brush lets a control flow
+    or status escape that bash confines (it does not influence the run; see Simulation.v):
+    [GLeak]: the last stage of a multi-stage pipeline (run in a cloned shell) ended with a
+             non-Normal control flow, which [Pipeline::execute] hands to the parent;
+    [GBang]: a [!] pipeline ended with Return/Exit and had its exit code inverted;
+    [GCond]: a while/until condition ended with a break/continue and an exit code that stops the
+             loop; the loop then reports the condition's code instead of the last body's. *)
+Inductive gk := GLeak | GBang | GCond.
+Record world := mkWorld { sh : shell; out : list event; quiet : bool; ghost : list gk }.
 
 Inductive outcome (A : Type) := Out (a : A) (w : world) | OutOfFuel.
 Arguments Out {A}. Arguments OutOfFuel {A}.
@@ -44,17 +47,17 @@ Definition bind {A B} (o : outcome A) (k : A -> world -> outcome B) : outcome B 
 
 (** ** state primitives *)
 Definition upd_sh (f : shell -> shell) (w : world) : world :=
-  mkWorld (f (sh w)) (out w) (quiet w) (g_leak w) (g_bang w).
+  mkWorld (f (sh w)) (out w) (quiet w) (ghost w).
 Definition sh_set_last (n : status) (s : shell) : shell := mkShell n (opt s) (funs s) (ctrs s) (fdepth s).
 Definition set_last (n : status) (w : world) : world := upd_sh (sh_set_last n) w.
 Definition emit (e : event) (w : world) : world :=
-  mkWorld (sh w) (if quiet w then out w else e :: out w) (quiet w) (g_leak w) (g_bang w).
-Definition mute (w : world) : world := mkWorld (sh w) (out w) true (g_leak w) (g_bang w).
-Definition mark_leak (b : bool) (w : world) : world := mkWorld (sh w) (out w) (quiet w) (g_leak w || b) (g_bang w).
-Definition mark_bang (b : bool) (w : world) : world := mkWorld (sh w) (out w) (quiet w) (g_leak w) (g_bang w || b).
+  mkWorld (sh w) (if quiet w then out w else e :: out w) (quiet w) (ghost w).
+Definition mute (w : world) : world := mkWorld (sh w) (out w) true (ghost w).
+Definition mark (k : gk) (b : bool) (w : world) : world :=
+  mkWorld (sh w) (out w) (quiet w) (if b then k :: ghost w else ghost w).
 (** back in the parent after a subshell / pipeline stage: the parent's shell state, the child's output *)
 Definition restore (parent child : world) : world :=
-  mkWorld (sh parent) (out child) (quiet parent) (g_leak child) (g_bang child).
+  mkWorld (sh parent) (out child) (quiet parent) (ghost child).
 
 Definition set_opt (o : sopt) (b : bool) (s : shell) : shell :=
   let p := opt s in
@@ -167,9 +170,9 @@ Section Exec.
           | _ => run_stages stages sup' w
           end) (fun rs w1 =>
       let r0 := pipe_result (pipefail (opt (sh w1))) rs in
-      let w2 := mark_leak (multi && negb (is_normal r0)) w1 in
+      let w2 := mark GLeak (multi && negb (is_normal r0)) w1 in
       let code := if bang then (if is_success r0 then 1 else 0) else fst r0 in
-      let w3 := mark_bang (bang && is_return_or_exit r0) w2 in
+      let w3 := mark GBang (bang && is_return_or_exit r0) w2 in
       let w4 := set_last code w3 in
       let r1 := (code, snd r0) in
       Out (if negb sup' then apply_errexit (sh w4) r1 else r1) w4).
@@ -270,7 +273,10 @@ Section Exec.
   Definition while_step (u : bool) (c b : clist) (sup : bool) (res : result) (w : world) : outcome result :=
     bind (exec_clist c true w) (fun rc w1 =>
       let w2 := set_last (fst rc) w1 in
-      if negb (is_normal rc) then finish (dec_result rc) w2
+      if negb (is_normal rc) then
+        finish (dec_result rc)
+               (mark GCond ((is_break rc || is_continue rc) && Bool.eqb (is_success rc) u
+                            && negb (Nat.eqb (fst res) (fst rc))) w2)
       else if Bool.eqb (is_success rc) u then finish res w2
       else
         bind (exec_clist b sup w2) (fun r w3 =>
@@ -304,7 +310,7 @@ with while_loop (fuel : nat) (u : bool) (c b : clist) (sup : bool) (res : result
   end.
 
 Definition init_shell : shell := mkShell 0 (mkOpts false false false) [] [] 0.
-Definition init_world : world := mkWorld init_shell [] false false false.
+Definition init_world : world := mkWorld init_shell [] false [].
 
 Definition run_model (fuel : nat) (p : program) : outcome result :=
   program_items (exec fuel) p success init_world.
